@@ -18,6 +18,12 @@ import (
 // walkMatching loads root (un-reified) and runs the selector (given as a
 // selector node) from it, the way a retrieval client does.
 func walkMatching(ls *ipld.LinkSystem, root cid.Cid, selNode datamodel.Node, visit func(p traversal.Progress, n datamodel.Node) error) error {
+	return walkMatchingCtx(context.Background(), ls, root, selNode, visit)
+}
+
+// walkMatchingCtx: the traversal (and every reification and load it causes)
+// runs under ctx.
+func walkMatchingCtx(ctx context.Context, ls *ipld.LinkSystem, root cid.Cid, selNode datamodel.Node, visit func(p traversal.Progress, n datamodel.Node) error) error {
 	sel, err := selector.CompileSelector(selNode)
 	if err != nil {
 		return fmt.Errorf("compile selector: %w", err)
@@ -28,7 +34,7 @@ func walkMatching(ls *ipld.LinkSystem, root cid.Cid, selNode datamodel.Node, vis
 	}
 	prog := traversal.Progress{
 		Cfg: &traversal.Config{
-			Ctx:        context.Background(),
+			Ctx:        ctx,
 			LinkSystem: *ls,
 			LinkTargetNodePrototypeChooser: func(l datamodel.Link, _ linking.LinkContext) (datamodel.NodePrototype, error) {
 				if cl, ok := l.(cidlink.Link); ok && cl.Cid.Prefix().Codec == cid.DagProtobuf {
